@@ -372,6 +372,12 @@ def check_meta(case, out):
     else:
         prog = J.Program(copy.deepcopy(case["tree"]))
         ds, _ = J.compare("a.js", prog, b1)
+        if not ds and any(d.written_before_decl for sc in prog.scopes for d in sc.decls.values()):
+            # the oracle accepts the implicit-global row such an assignment creates for otherwise undeclared
+            # names; renaming moves that row to the new name -> same root cause as the known finding
+            sig = ("javascript", "function", "implicit-global-row", "variable-assigned-before-its-declaration-in-the-function")
+            if common.classify("C05", ("C05",) + sig)[0] == "known":
+                ds = [(sig, "assignment before declaration")]
     if ds:
         out.skipped = True
         for sig, what in ds:
